@@ -332,6 +332,100 @@ theorem direct_ops_leave_distributor (cfg : Feeflow.Cfg) (s s' : Feeflow.St) (se
       rw [hc] at h; simp only at h; injection h with h; subst h
       exact ⟨rfl, rfl, rfl, (direct_aggregate_only_converts _ _ _ _ _ _ _ _ _ hc).2.2.2.2.2.1, rfl⟩
 
+/-! ### stray coins
+
+  Any execute message can carry native coins (`info.funds`).  None of the collector's / distributor's entry
+  points looks at them, so they stay on the contract the message was addressed to: `Feeflow.Op.coins payer a x op`
+  is the bank's transfer followed by `op`, in one transaction.  `a` is ANY asset index — an asset of the world
+  (also the distribution asset) or an unrelated denom.  Every history theorem over `Feeflow.Op` / `Feeflow.reach`
+  (C09 `joint_histories`) covers these operations, since they are part of the alphabet. -/
+
+/-- a message with coins attached is the bank's transfer to the receiving contract followed by the operation,
+    atomically: if either fails, nothing happens -/
+theorem coins_are_gift_then_op (cfg : Feeflow.Cfg) (s : Feeflow.St) (payer a x : Nat) (op : Feeflow.Op) :
+    Feeflow.step cfg s (.coins payer a x op) =
+      match Feeflow.pay cfg s payer a x (Feeflow.target op) with
+      | .ok s1 => Feeflow.step cfg s1 op
+      | .err => .err
+      | .panic => .panic := by
+  simp only [Feeflow.step]
+  cases Feeflow.pay cfg s payer a x (Feeflow.target op) <;> rfl
+
+/-- **stray_coins_stay_on_collector** — a `CollectFees` sent to the collector WITH COINS ATTACHED (`x` of any
+    asset `a`, by anybody) succeeds only if the plain collection from the same state succeeds, leaves exactly
+    the pending ledgers of the plain collection (what is collected does not change: no pair and no vault
+    receives or keeps anything else), and every collector balance is the one after the plain collection
+    plus the attached coins — i.e. balance before + collected + attached.  The coins are nowhere else: the
+    distributor, the DAO, the router / lair balances are untouched; only the payer's balance falls. -/
+theorem stray_coins_stay_on_collector (cfg : Feeflow.Cfg) (s s' : Feeflow.St) (payer a x sender : Nat)
+    (f : FeesFor) (h : Feeflow.step cfg s (.coins payer a x (.collect sender f)) = .ok s') :
+    ∃ c0, collectFees s.c sender f = .ok c0 ∧
+      s'.c.pools = c0.pools ∧ s'.c.vaults = c0.vaults ∧
+      (∀ i, s'.c.bal i = c0.bal i + (if a = i then x else 0)) ∧
+      (∀ i, s'.c.bal i = s.c.bal i + directCollected s.c f i + (if a = i then x else 0)) ∧
+      (∀ i, s'.c.bal i + vaultsPending i s'.c.vaults + poolsPending i s'.c.pools =
+            s.c.bal i + vaultsPending i s.c.vaults + poolsPending i s.c.pools + (if a = i then x else 0)) ∧
+      s'.d = s.d ∧ s'.daoBal = s.daoBal ∧ s'.c.dao = s.c.dao ∧ s'.xb = s.xb ∧
+      s'.ub = Feeflow.ubAfterPay cfg s payer a x := by
+  simp only [Feeflow.step, Feeflow.target] at h
+  cases hp : Feeflow.pay cfg s payer a x .collector with
+  | err => rw [hp] at h; cases h
+  | panic => rw [hp] at h; cases h
+  | ok s1 =>
+    rw [hp] at h; simp only at h
+    have e1 := Feeflow.pay_collector_ok hp
+    subst e1
+    simp only at h
+    cases hc : collectFees { s.c with bal := add s.c.bal a x } sender f with
+    | err => rw [hc] at h; cases h
+    | panic => rw [hc] at h; cases h
+    | ok c' =>
+      rw [hc] at h; simp only at h; injection h with h; subst h
+      obtain ⟨c0, h0, hp, hv, hb, hdao, _⟩ := collectFees_gift hc
+      obtain ⟨_, _⟩ := collectFees_spec h0 0
+      refine ⟨c0, h0, hp, hv, hb, fun i => ?_, fun i => ?_, rfl, rfl, ?_, rfl, rfl⟩
+      · have := hb i; have := (collectFees_spec h0 i).1; simp only at *; omega
+      · have := hb i; have := collectFees_spec h0 i; simp only at *; rw [hp, hv]; omega
+      · simp only; rw [hdao]; exact (collectFees_rest h0).1
+
+/-- the same for the PIPELINE collection: coins attached to `NewEpoch` land on the distributor (the contract
+    the message is addressed to) and change nothing of the run — the collector's state, the pending ledgers,
+    the DAO's cut, the transferred amount `o`, the new epoch and every epoch ledger are those of the plain
+    `NewEpoch` from the same state; the distributor's balance of the attached asset is larger by the gift
+    (which belongs to no epoch) -/
+theorem stray_coins_on_new_epoch (cfg : Feeflow.Cfg) (s s' : Feeflow.St) (payer a x now : Nat)
+    (router : Nat → Nat → Nat → Nat) (acc : Nat → Nat → Nat)
+    (h : Feeflow.step cfg s (.coins payer a x (.newEpoch now router acc)) = .ok s') :
+    ∃ s0 o, Feeflow.newEpoch cfg s now router acc = .ok (s0, o) ∧
+      s'.c = s0.c ∧ s'.daoBal = s0.daoBal ∧ s'.d.epochs = s0.d.epochs ∧ s'.d.dist = s0.d.dist ∧
+      (∀ i, s'.d.bal i = s0.d.bal i + Distributor.sel a i x) ∧ s'.xb = s0.xb ∧
+      s'.ub = Feeflow.ubAfterPay cfg s payer a x := by
+  simp only [Feeflow.step, Feeflow.target] at h
+  cases hp : Feeflow.pay cfg s payer a x .distributor with
+  | err => rw [hp] at h; cases h
+  | panic => rw [hp] at h; cases h
+  | ok s1 =>
+    rw [hp] at h; simp only at h
+    have e1 := Feeflow.pay_distributor_ok hp
+    subst e1
+    cases hn : Feeflow.newEpoch cfg { s with ub := Feeflow.ubAfterPay cfg s payer a x, d := Distributor.gift s.d a x }
+        now router acc with
+    | err => rw [hn] at h; cases h
+    | panic => rw [hn] at h; cases h
+    | ok pr =>
+      obtain ⟨s1, o⟩ := pr
+      rw [hn] at h; simp only at h; injection h with h; subst h
+      obtain ⟨s0, h0, hc, hdao, he, _, _, hdi, hb, hub, _, _, hxb⟩ := Feeflow.newEpoch_gift hn
+      exact ⟨s0, o, h0, hc, hdao, he, hdi, hb, hxb, hub⟩
+
+/-- a bonder cannot attach what it does not hold, and coins attached to a failing operation are not lost:
+    the transaction fails as a whole (`Res` carries no state) -/
+theorem stray_coins_need_funds (cfg : Feeflow.Cfg) (s : Feeflow.St) (payer a x : Nat) (op : Feeflow.Op)
+    (hu : payer < cfg.nusers) (ha : a < cfg.c.nassets) (hx : s.ub payer a < x) :
+    Feeflow.step cfg s (.coins payer a x op) = .err := by
+  simp only [Feeflow.step]
+  cases ht : Feeflow.target op <;> simp only [Feeflow.pay] <;> rw [if_pos ⟨hu, ha, hx⟩]
+
 /-! ### factory pages -/
 
 /-- the documented page sizes: `ForwardFees` asks for 30 entries, which both factories grant (maximum
@@ -439,6 +533,42 @@ def agg0 : Option (St × Nat × List (Nat × Nat × Nat)) :=
 example : agg0.map (fun r => (r.1.bal 0, r.1.bal 1, r.1.bal 2, r.1.dao)) = some (0, 0, 2447, 0) := by decide
 example : agg0.map (fun r => (r.1.trh, r.2.1, r.2.2)) = some ([], 2400, [(0, 1, 2500)]) := by decide
 example : (aggregateFees cfg0 st0 1000 (.onePool 0) (fun _ _ _ => 0) (fun _ _ => 0)).isOk = false := by decide
+
+/-! ### non-vacuity of the stray-coin theorems -/
+
+def jcfg : Feeflow.Cfg := { d := { genesis := 1000, duration := 100, owner := 1000 }, c := cfg0, nusers := 5 }
+
+/-- the joint state around `st0`; bonder 1 holds 300 of asset 0 -/
+def jst : Feeflow.St :=
+  { d := Distributor.St.init 2 2, c := st0, view := fun _ => none,
+    ub := fun u a => if u = 1 ∧ a = 0 then 300 else 0, daoBal := fun _ => 0, rts := fun _ _ => [],
+    xb := fun _ _ => 0 }
+
+/-- the stranger (1002) sends `CollectFees` for the pool factory with 77 uatom AND 5 of an unrelated denom
+    (index 3) attached: the collection moves the 5000 uatom and the 1001 uwhale as without coins
+    (`st0` examples above), the pending ledgers are the same, the coins are on the collector -/
+example : ((Feeflow.step jcfg jst (.coins 1002 0 77 (.coins 1002 3 5 (.collect 1002 (.poolFactory (some 30)))))).toOption.map
+    fun s => (s.c.bal 0, s.c.bal 1, s.c.bal 2, s.c.bal 3)) = some (5077, 0, 1041, 5) := by decide
+example : ((Feeflow.step jcfg jst (.coins 1002 0 77 (.coins 1002 3 5 (.collect 1002 (.poolFactory (some 30)))))).toOption.map
+    fun s => (s.c.pools.map (fun p => (p.pa, p.pb)), s.c.vaults.map (·.pend))) =
+    some ([(0, 1000), (0, 0)], [7, 2500]) := by decide
+
+/-- bonder 1 can attach the 300 uatom it holds (they leave its balance), not 301; coins attached to a
+    rejected message (a pair that does not exist) are not taken -/
+example : ((Feeflow.step jcfg jst (.coins 1 0 300 (.collect 1 (.onePool 0)))).toOption.map fun s => (s.ub 1 0, s.c.bal 0)) =
+    some (0, 5300) := by decide
+example : (Feeflow.step jcfg jst (.coins 1 0 301 (.collect 1 (.onePool 0)))).isOk = false ∧
+    (Feeflow.step jcfg jst (.coins 1 0 300 (.collect 1 (.onePool 9)))).isOk = false := by decide
+
+/-- coins attached to `NewEpoch` (now = 1000 = genesis) stay on the distributor and belong to no epoch: the
+    pipeline forwards 3104 uwhale as in `out0`, the distributor then holds 3104 + 50 uwhale and 9 of the
+    unrelated denom; the new epoch's total is the 3104 -/
+example : ((Feeflow.step jcfg { jst with rts := fun ask offer => if ask = 2 ∧ offer = 1 then [(1, 2)] else [] }
+      (.coins 1000 2 50 (.coins 1000 3 9 (.newEpoch 1000 (fun _ _ _ => 2400) (fun _ _ => 0))))).toOption.map
+    fun s => (s.d.bal 2, s.d.bal 3, s.c.bal 2, s.daoBal 2)) = some (3154, 9, 0, 344) := by decide
+example : ((Feeflow.step jcfg { jst with rts := fun ask offer => if ask = 2 ∧ offer = 1 then [(1, 2)] else [] }
+      (.coins 1000 2 50 (.coins 1000 3 9 (.newEpoch 1000 (fun _ _ _ => 2400) (fun _ _ => 0))))).toOption.map
+    fun s => s.d.epochs.map (·.total)) = some [[(2, 3104)]] := by decide
 
 /-! ### non-vacuity of the page theorems -/
 
